@@ -14,6 +14,7 @@
   the real code on a sequential schedule.
 -/
 import SA.Proofs.Policy
+import SA.Gen.Locks
 namespace SA.Policy
 
 /-! ### the regenerated facts the theorems rest on -/
@@ -669,6 +670,10 @@ example : let ds : List UpDesc := [⟨"starttls", false, .both, true⟩, ⟨"tcp
     let c := descCfg ds (some 0)
     (connect Facts.current c (envRestart (connect Facts.current c Sh.init true).1) true).2.1 = .up 1 := by decide
 
+/-- **locks_not_reentrant**: the policy model's steps (Connect's critical section, discard, Shutdown) are atomic; in
+    the code no function holding Upstreams.mutex reaches code that locks it again (regenerated). -/
+theorem C16_locks_not_reentrant : Gen.reentrantLockPaths = [] := by decide
+
 end SA.Policy
 
 #print axioms SA.Policy.C16_usable_intrinsic
@@ -694,3 +699,4 @@ end SA.Policy
 #print axioms SA.Policy.C16_bounded_abandon_stall
 #print axioms SA.Policy.C16_stall_kinds_are_silent
 #print axioms SA.Policy.C16_witness_starttls_stall_unbounded
+#print axioms SA.Policy.C16_locks_not_reentrant
